@@ -222,10 +222,10 @@ class Gen:
                 continue
             o = self.fresh()
             j2, f21 = self.pick(pool, "J2"), self.pick(pool, "F21")
-            if j2 is not None and r.random() < 0.15:
+            if j2 is not None and r.random() < 0.3:
                 nodes.append({"op": "Cast", "ins": [j2], "outs": [o], "attrs": {"to": ["i", 1]}})
                 pool.append((o, "F2")); local.append((o, "F2"))
-            elif f21 is not None and r.random() < 0.15:
+            elif f21 is not None and r.random() < 0.3:
                 nodes.append({"op": "Mul", "ins": [x, f21], "outs": [o], "attrs": {}})
                 pool.append((o, "F22")); local.append((o, "F22"))
             elif c < 0.40:
@@ -516,6 +516,11 @@ class Gen:
             if also_input:
                 inputs.append([name, kind])
             pool.append((name, kind))
+            if kind == "F2" and data == [1.0, 2.0] and r.random() < 0.5:
+                # twins with the same bytes but another dtype / shape: must NOT be deduplicated
+                tk = r.choice(["J2", "F21"])
+                inits.append([name + "t", tk, [1065353216, 1073741824] if tk == "J2" else [1.0, 2.0], False])
+                pool.append((name + "t", tk))
         local = []
         nodes = self.gen_nodes(pool, r.choice([2, 4, 6, 9, 12]), 2, None, local)
         # outputs: produced values (executable kinds only), sometimes an input / initializer / duplicate
